@@ -287,7 +287,7 @@ impl Sched {
             r.poll(&self.w);
         }
         let g = lock(&self.w);
-        let h = Hist { script: g.script.clone(), log: g.log.clone(), ends: vec![], storage: g.storage.clone(), interactions: g.interactions };
+        let h = Hist { script: g.script.clone(), log: g.log.ops.clone(), stamps: g.log.stamps.clone(), ends: vec![], storage: g.storage.clone(), interactions: g.interactions };
         drop(g);
         (h, self.info)
     }
